@@ -187,6 +187,62 @@ def returnTimeFrom (cfg : Config) (cancelAt : Option (Nat × Dur)) : Nat → Lis
           | [] => a.e2 + delay
           | _ :: _ => returnTimeFrom cfg cancelAt (k + 1) rest bs.tail
 
+/-! ### the export context: what can end it (caller, Stop/Shutdown, the client's own timeout) -/
+
+/-- how an exporter's Shutdown/Stop is wired to an export that is pending (as read in the six packages) -/
+inductive StopWiring where
+  /-- otlptracehttp (`stopCh` → `contextWithStop`), otlptracegrpc (`stopCtx`, cancelled once Stop's own context has
+  expired): the stop signal cancels the export context -/
+  | cancelsExport
+  /-- otlpmetrichttp, otlpmetricgrpc, otlploggrpc: `Shutdown` takes the mutex that `Export` holds across the whole
+  upload; nothing is signalled to the pending export -/
+  | waitsForExport
+  /-- otlploghttp: `Shutdown` swaps in a no-op client and returns nil; the pending export is left alone -/
+  | detaches
+deriving DecidableEq, Repr
+
+/-- `a` is not later than `b` (positions `(wait number, ns into that wait)`) -/
+def evLe (a b : Nat × Dur) : Bool := decide (a.1 < b.1) || (a.1 == b.1 && decide (a.2 ≤ b.2))
+
+def earlier : Option (Nat × Dur) → Option (Nat × Dur) → Option (Nat × Dur)
+  | none, b => b
+  | a, none => a
+  | some a, some b => if evLe a b then some a else some b
+
+/-- when the export context is done: the caller's context, the stop signal (if it is wired to the export), the
+client's own timeout (`exportContext`: `WithTimeout` only if `timeout > 0`, else `WithCancel`). The timeout decides
+ONLY whether there is a deadline event; the stop signal is linked in either case. -/
+def exportCtxDone (w : StopWiring) (timeout : Dur) (caller stop deadline : Option (Nat × Dur)) :
+    Option (Nat × Dur) :=
+  earlier caller
+    (earlier (match w with
+              | .cancelsExport => stop
+              | _ => none)
+             (if timeout > 0 then deadline else none))
+
+/-- one export call of a client with that wiring and timeout -/
+def exportRun (cfg : Config) (w : StopWiring) (timeout : Dur) (atts : List Attempt) (bs : List Dur)
+    (caller stop deadline : Option (Nat × Dur)) : Run :=
+  requestLoop cfg atts bs (exportCtxDone w timeout caller stop deadline)
+
+/-- the `shut` scenario: an export is pending in its first wait (1 h back-off, `MaxElapsedTime = 0`), Shutdown is
+called with a 100 ms deadline, observation 2 s later. `none` = still blocked then; `some true` = returned a context
+error; `some false` = returned nil. (`grpc`: the client timeout spans the whole upload, so a positive timeout is a
+deadline event `timeout` ns into the wait; the HTTP timeout is per request.) -/
+def shutdownSeen (w : StopWiring) (grpc : Bool) (timeout : Dur) : Option Bool × Option Bool :=
+  let horizon : Dur := 2000000000
+  let stopAt : Nat × Dur := (0, 105000000)
+  let ex : Option Bool :=
+    match exportCtxDone w timeout none (some stopAt) (if grpc then some (0, timeout) else none) with
+    | some (0, c) => if c ≤ horizon then some true else none
+    | _ => none
+  let sh : Option Bool :=
+    match w with
+    | .cancelsExport => some grpc       -- gRPC Stop forwards its expired context's error; HTTP Stop: context alive, nil
+    | .waitsForExport => ex.map (fun _ => true)   -- returns only once the export has released the mutex
+    | .detaches => some false
+  (sh, ex)
+
 /-! ### HTTP classification -/
 
 def digitsValAux : List UInt8 → Nat → Option Nat
